@@ -112,7 +112,7 @@ func c16DrawOp(rt *rapid.T, first bool, live *[][2]int) c16Op {
 		kinds = []string{"create"}
 	}
 	o.Kind = rapid.SampledFrom(kinds).Draw(rt, "kind")
-	o.DT = rapid.SampledFrom([]int64{1, 1, 1, 1, 5, 5, 20, 60, 300, 2000}).Draw(rt, "dt")
+	o.DT = rapid.SampledFrom([]int64{1, 1, 1, 1, 5, 5, 20, 50, 100, 300, 2000}).Draw(rt, "dt")
 	o.Master = rapid.IntRange(0, 1).Draw(rt, "master")
 	o.Sess = rapid.IntRange(0, 2).Draw(rt, "sess")
 	// aim most session traffic and revocations at sessions that were created earlier in the history
@@ -663,7 +663,7 @@ func c16LedgerDiff(a, b *ec.Ledger) string {
 func TestC16_Sessions(t *testing.T) {
 	vk.Run(t, vk.Spec[c16Case]{
 		ID: "C16", Name: "TestC16_Sessions",
-		Rule: "rapid: histories of 14-30 ops (one tx per block, clock steps 1-2000 s) over 2 masters x 3 session keys: create (limit ugnot 0/0.3M/1M/3M/10M and optional realm-denom limit, period 0/50/400 s, expiry never/100/1000/100000 s, 1-3 allow-path entries from a pool of 9 well-formed and 9 malformed ones), revoke, revoke-all, master-signed traffic, and session-signed txs with 1-3 messages (bank send in ugnot or a realm denom, calls with coins attached to realms aa, aab, aa/bb, calls locking storage deposits with or without a too-small limit, MsgRun scripts spending the master's coins through a banker, a call to a missing function, add_package, create/revoke/revoke-all session) with fees 1/50k/200k, sometimes as second signer next to the other master's own key. Oracle: window model fed with the measured balance decrease of the master; session must exist, be unexpired and its allow-paths (independent matcher) must cover every message; rejected txs move no coins; non-trivial = one session has >=3 accepted txs in one window with a failing one in the middle",
+		Rule: "rapid: histories of 14-30 ops (one tx per block, clock steps 1-2000 s incl. exactly one period / one expiry span) over 2 masters x 3 session keys: create (limit ugnot 0/0.3M/1M/3M/10M and optional realm-denom limit, period 0/50/400 s, expiry never/100/1000/100000 s, 1-3 allow-path entries from a pool of 9 well-formed and 9 malformed ones), revoke, revoke-all, master-signed traffic, and session-signed txs with 1-3 messages (bank send in ugnot or a realm denom, calls with coins attached to realms aa, aab, aa/bb, calls locking storage deposits with or without a too-small limit, MsgRun scripts spending the master's coins through a banker, a call to a missing function, add_package, create/revoke/revoke-all session) with fees 1/50k/200k, sometimes as second signer next to the other master's own key. Oracle: window model fed with the measured balance decrease of the master; session must exist, be unexpired and its allow-paths (independent matcher) must cover every message; rejected txs move no coins; non-trivial = one session has >=3 accepted txs in one window with a failing one in the middle",
 		Draw: c16Draw, Exec: c16Exec,
 	})
 }
